@@ -291,6 +291,9 @@ impl Recorder {
             v.push(json!({"engine": self.args.engine, "property": self.args.prop, "sweep": sweep, "case": case, "expected": expected, "got": got}));
         }
     }
+    pub fn take_violations(&self) -> Vec<Value> {
+        self.violations.lock().unwrap().clone()
+    }
     /// A disagreement that matches the input predicate of a listed known finding.
     pub fn known_hit(&self, id: &str, example: impl FnOnce() -> Value) {
         let mut k = self.known_tally.lock().unwrap();
